@@ -196,6 +196,18 @@ def passes (U : Nat → Attrs) (arch : Option Str) (types : List Str) (v : Nat) 
    | none => true
    | some a => a.isEmpty || (U v).arches.contains a || a = srcA)
 
+/-- the loop over `self.variants.values()` (insertion order); `one v` is what one child contributes; the first
+exception ends the call -/
+def gvKids (one : Nat → Except Err (List Nat)) : List (Str × Nat) → Except Err (List Nat)
+  | [] => .ok []
+  | kv :: r =>
+    match one kv.2 with
+    | .error e => .error e
+    | .ok a =>
+      match gvKids one r with
+      | .error e => .error e
+      | .ok b => .ok (a ++ b)
+
 /--
 ```
 types = types or []; result = []
@@ -210,19 +222,21 @@ result.sort(key=lambda x: x.uid)          # AttributeError when `self` is the to
 def getVariants (U : Nat → Attrs) (s : State) : Nat → Cont → Option Str → List Str → Bool → Except Err (List Nat)
   | 0, _, _, _, _ => .error .runtimeError
   | f + 1, c, arch, types, recursive =>
-    let parts : Except Err (List (List Nat)) := (s.kidsOf c).mapM fun kv =>
-      if passes U arch types kv.2 then
+    let one : Nat → Except Err (List Nat) := fun v =>
+      if passes U arch types v then
         if recursive then
-          (getVariants U s f (some kv.2) arch (types.filter (· ≠ selfT)) true).map (kv.2 :: ·)
-        else .ok [kv.2]
+          match getVariants U s f (some v) arch (types.filter (· ≠ selfT)) true with
+          | .ok sub => .ok (v :: sub)
+          | .error e => .error e
+        else .ok [v]
       else .ok []
-    match parts with
+    match gvKids one (s.kidsOf c) with
     | .error e => .error e
-    | .ok ps =>
+    | .ok body =>
       if types.contains selfT then
         match c with
         | none => .error .attributeError
-        | some i => .ok (sortByUid U (i :: ps.flatten))
-      else .ok (sortByUid U ps.flatten)
+        | some i => .ok (sortByUid U (i :: body))
+      else .ok (sortByUid U body)
 
 end PM.Forest
